@@ -9,22 +9,11 @@ import sys
 
 VERIF = os.path.dirname(os.path.dirname(os.path.abspath(__file__)))
 
-# property -> (category, technique, text, level_note, design_ref)
-CHECKS = {}
-# property -> reason (not claimed)
-NOT_APPLICABLE = {}
-
-
-def claim(pid, category, technique, text, note, ref):
-    CHECKS[pid] = (category, technique, text, note, ref)
-
-
-def skip(pid, reason):
-    NOT_APPLICABLE[pid] = reason
-
-
 sys.path.insert(0, os.path.dirname(os.path.abspath(__file__)))
-import manifest_table  # noqa: E402,F401  (fills CHECKS / NOT_APPLICABLE)
+import manifest_table  # noqa: E402
+
+CHECKS = manifest_table.CHECKS
+NOT_APPLICABLE = manifest_table.NOT_APPLICABLE
 
 
 def build():
